@@ -181,7 +181,9 @@ RoundGoal(z, ref, span, S, L, inc, mode, mf) ==
                            ELSE IF a = t0 THEN [st |-> "set", ps |-> {a}, errok |-> errok]
                            ELSE IF b = <<>> THEN [st |-> "set", ps |-> {a}, errok |-> TRUE]
                            ELSE IF ~(Sign3(a, t0) = sgn /\ Sign3(t0, b) # 0 - sgn) THEN [st |-> "skip"]
-                           ELSE LET cands == {b} \cup (bnds \ {<<>>})
+                           \* (only a boundary strictly beyond the lower candidate can cut the window short: at a
+                           \*  clamped month end, reference + 1 month may lie at or before reference + 29 days)
+                           ELSE LET cands == {b} \cup {x \in bnds \ {<<>>} : Sign3(a, x) = sgn}
                                     beff == CHOOSE x \in cands : \A y \in cands : x = y \/ Sign3(x, y) = sgn
                                     r1 == IF PickUpper(mode, a, b, t0, sgn, k % 2 = 0) THEN beff ELSE a
                                     r2 == IF Sign3(t0, beff) = 0 - sgn THEN beff   \* t0 itself lies beyond the boundary
